@@ -44,6 +44,9 @@ Definition escape_html_chars (str_val : option str) : option str :=
       Some o4
   end.
 
+(* escape_html_chars on a string that is not None *)
+Definition esc (v : str) : str := match escape_html_chars (Some v) with Some o => o | None => [] end.
+
 (* one entry of the list handed to seg_str: a string or a list of strings (None kept: join fails on it) *)
 Inductive titem := TStr (v : option str) | TList (vs : list (option str)).
 
@@ -66,13 +69,14 @@ Definition seg_str (seg : list titem) (seg_term ele_term subele_term eol : str) 
   do tmp' <- all_some tmp;
   Ok (join_s ele_term tmp' ++ seg_term ++ eol).
 
-(* _seg_str (157-163): `seg_id + self.ele_term` is evaluated before seg_str is called *)
+(* _seg_str: segment id and terminators escaped (fix f4fb690); escape_html_chars(None) is None and
+   `None + ele_term` is evaluated before seg_str is called *)
 Definition html_seg_str (c : html_cfg) (seg_id : option str) (ele_list : list titem) : result str :=
   match seg_id with
   | None => Raise TypeError
   | Some sid0 =>
-      do body <- seg_str ele_list (hc_seg_term c) (hc_ele_term c) (hc_subele_term c) hc_eol;
-      Ok (sid0 ++ hc_ele_term c ++ body)
+      do body <- seg_str ele_list (esc (hc_seg_term c)) (esc (hc_ele_term c)) (esc (hc_subele_term c)) hc_eol;
+      Ok (esc sid0 ++ esc (hc_ele_term c) ++ body)
   end.
 
 (* _wrap_ele_error (165-169) *)
@@ -95,11 +99,11 @@ Definition html_header (t : str) : list str :=
     l "<h1>X12N Error Analysis</h1>" ++ NLs ++ l "<h3>Analysis Date: " ++ t ++ l "</h3><p>" ++ NLs;
     l "<div class=""segs"" style="""">" ++ NLs ].
 
-(* the three message lines; error strings and codes are written UNESCAPED *)
+(* the message lines; error strings are escaped (fix f4fb690), codes are written as they are *)
 Definition seg_err_line (err_str err_cde : str) : str :=
-  l "<span class=""error"">&nbsp;" ++ err_str ++ l " (Segment Error Code: " ++ err_cde ++ l ")</span><br />" ++ NLs.
+  l "<span class=""error"">&nbsp;" ++ esc err_str ++ l " (Segment Error Code: " ++ err_cde ++ l ")</span><br />" ++ NLs.
 Definition ele_err_line (err_str err_cde : str) : str :=
-  l "<span class=""error"">&nbsp;" ++ err_str ++ l " (Element Error Code: " ++ err_cde ++ l ")</span><br />" ++ NLs.
+  l "<span class=""error"">&nbsp;" ++ esc err_str ++ l " (Element Error Code: " ++ err_cde ++ l ")</span><br />" ++ NLs.
 
 (* gen_info (88-92) *)
 Definition gen_info {S} (info_str : str) : W S unit :=
@@ -108,7 +112,7 @@ Definition gen_info {S} (info_str : str) : W S unit :=
 (* loop (83-86): loop_node.type != 'wrapper' *)
 Definition html_loop (st : html_state) (node_id node_name node_type : option str) : html_state :=
   if opt_eqb str_eqb node_type (Some (l "wrapper")) then st
-  else {| loop_info := Some (l "Loop " ++ pct_s node_id ++ l ": " ++ pct_s node_name) |}.
+  else {| loop_info := Some (esc (l "Loop " ++ pct_s node_id ++ l ": " ++ pct_s node_name)) |}.
 
 (* the object x12n_document hands to loop(): node.get_parent() of the matched segment node — a loop_if, or the
    map_if itself for a segment directly under the map root; map_if has no attribute `type` *)
@@ -259,11 +263,11 @@ Definition html_gen_seg (c : html_cfg) (h : errh) (x : xseg) (cur_line : option 
   (* 141-155 *)
   w_iter (write_post_errors h seg_id) err_node_list.
 
-(* footer (62-81): self.errh.cur_st_node / cur_gs_node / cur_isa_node may be None: None.is_closed() *)
+(* footer (62-81): self.errh.cur_st_node / cur_gs_node / cur_isa_node may be None: skipped *)
 Definition footer_part {A} (cur : option nat) (heap : list A) (closed : A -> bool) (errors : A -> list err2)
            (code : string) : W unit unit :=
   match cur with
-  | None => w_raise AttributeError
+  | None => w_ret tt                                          (* fix 093f35c: `is not None and` *)
   | Some i =>
       dow n <- w_lift (heap_nth heap i);
       if closed n then w_ret tt
